@@ -5,6 +5,8 @@ from props import objcommon as oc
 
 def key_case(m):
     c = m['case']
+    if c.get('kind') == 'offsets':
+        return 'offsets:T=%d:Kt=%d:Z=%d:r=%d' % (c['t'], c['kt'], c['z'], c['r'])
     return 'layout:F=%d:T=%d:Z=%d:N=%d:Al=%d' % (c['f'], c['t'], c['z'], c['n'], c['al'])
 
 
@@ -16,10 +18,10 @@ def run(chk):
     if cases is not None:
         ok = oc.replay_cases(chk, exe, cases, 'c05', key_case)
         for c in cases:
-            if c['z'] > 1 and c['n'] > 1 and c['f'] % c['t'] != 0 and len(chk.cov['samples']) < 2:
+            if c.get('kind') == 'layout' and c['z'] > 1 and c['n'] > 1 and c['f'] % c['t'] != 0 and len(chk.cov['samples']) < 2:
                 chk.sample(c)
     ncases = len(cases or [])
-    nontrivial = len([c for c in (cases or []) if c['z'] > 1 or c['n'] > 1 or c['f'] % c['t'] != 0])
+    nontrivial = len([c for c in (cases or []) if c.get('kind') == 'offsets' or c['z'] > 1 or c['n'] > 1 or c['f'] % c['t'] != 0])
     chk.cov['evaluations'] = ncases
     chk.cov['distinct_nontrivial'] = nontrivial if ok else 0
     chk.cov['exhaustive'] = True
